@@ -16,6 +16,7 @@ import (
 	"github.com/skycoin/skycoin/src/coin"
 	"github.com/skycoin/skycoin/src/daemon"
 	"github.com/skycoin/skycoin/src/util/logging"
+	"github.com/skycoin/skycoin/src/visor"
 )
 
 func main() { Main(run) }
@@ -48,6 +49,7 @@ type env struct {
 	alt     map[int]coin.Transactions // alt[k]: another transaction set valid at height k-1 (not the publisher's block k)
 	other   cipher.SecKey             // a key that is not the publisher's
 	f1      bool
+	folCfg  int                      // which block-creation policy the next follower is configured with
 	hashes  map[[2]cipher.SHA256]int // (header hash, body hash) of the publisher's blocks
 	nfollow int
 	rng     *Rng
@@ -111,6 +113,7 @@ type traceEntry struct {
 // and whether each stored signature verifies.
 func (e *env) follower(reqn uint64) (*vk.Node, *daemon.VerifC33Node, error) {
 	e.nfollow++
+	e.folCfg = e.nfollow
 	p := filepath.Join(e.dir, fmt.Sprintf("f%d.db", e.nfollow))
 	tmpl := filepath.Join(e.dir, "follower_template.db")
 	if _, err := os.Stat(tmpl); err != nil { // first follower: a node holding only the genesis block
@@ -304,6 +307,39 @@ func headsOf(t []traceEntry) []uint64 {
 	return h
 }
 
+// bigTxn spends the largest spendable output into 950 outputs of distinct amounts
+func bigTxn(pub *vk.Node, used map[cipher.SHA256]bool) (coin.Transaction, error) {
+	sp, headTime, err := pub.Spendable(nil)
+	if err != nil {
+		return coin.Transaction{}, err
+	}
+	var in *coin.UxOut
+	for _, a := range pub.W.Addrs {
+		for i := range sp[a] {
+			if in == nil || sp[a][i].Body.Coins > in.Body.Coins {
+				in = &sp[a][i]
+			}
+		}
+	}
+	const n = 950
+	need := uint64(1000 * n * (n + 1) / 2)
+	if in == nil || in.Body.Coins < need+1000 {
+		return coin.Transaction{}, fmt.Errorf("no output large enough for the big transaction")
+	}
+	hrs, _ := in.CoinHours(headTime)
+	var to []cipher.Address
+	var cs, hs []uint64
+	for i := 1; i <= n; i++ {
+		to = append(to, pub.W.Addrs[i%len(pub.W.Addrs)])
+		cs = append(cs, uint64(i)*1000)
+		hs = append(hs, 0)
+	}
+	to = append(to, in.Body.Address)
+	cs = append(cs, in.Body.Coins-need)
+	hs = append(hs, hrs/2)
+	return pub.W.Spend(coin.UxArray{*in}, to, cs, hs)
+}
+
 // all permutations of xs
 func perms(xs []int) [][]int {
 	if len(xs) <= 1 {
@@ -356,12 +392,33 @@ func run(args []string) error {
 	nchain := 23 // longer than GetBlocksRequestCount / MaxGetBlocksResponseCount (20) + 1
 	nrandTop := 10
 	w := vk.NewWorld([]byte(fmt.Sprintf("c33-%d", f.Seed)), 5)
+	e := &env{w: w, dir: dir, rng: r, alt: map[int]coin.Transactions{}}
+	// Publisher and followers run with DIFFERENT block-creation / unconfirmed policy
+	// parameters; none of them is a consensus rule, acceptance must not depend on them.
+	w.Tweak = func(c *visor.Config, publisher bool) {
+		if publisher { // generous publisher: blocks and transactions far above the defaults
+			c.MaxBlockTransactionsSize = 1 << 20
+			c.CreateBlockVerifyTxn.MaxTransactionSize = 1 << 20
+			c.UnconfirmedVerifyTxn.MaxTransactionSize = 1 << 20
+			return
+		}
+		switch e.folCfg % 3 {
+		case 0: // defaults: MaxBlockTransactionsSize 32768, below the publisher's big blocks
+		case 1: // stricter fee / precision policy for its own block creation and pool
+			c.CreateBlockVerifyTxn.BurnFactor = 50
+			c.UnconfirmedVerifyTxn.BurnFactor = 50
+			c.CreateBlockVerifyTxn.MaxDropletPrecision = 6
+		case 2: // larger limits than the publisher
+			c.MaxBlockTransactionsSize = 1 << 22
+			c.CreateBlockVerifyTxn.MaxTransactionSize = 1 << 21
+		}
+	}
 	pub, err := w.Open(filepath.Join(dir, "pub.db"), true)
 	if err != nil {
 		return err
 	}
 	defer pub.Remove()
-	e := &env{w: w, dir: dir, pub: pub, rng: r, alt: map[int]coin.Transactions{}}
+	e.pub = pub
 	_, e.other = cipher.MustGenerateDeterministicKeyPair([]byte("not the publisher"))
 	g, err := pub.V.GetSignedBlockBySeq(0)
 	if err != nil {
@@ -385,6 +442,15 @@ func run(args []string) error {
 				used[ux.Hash()] = true
 			}
 			txns = append(txns, t)
+		}
+		if k == 5 || k == 21 {
+			// a block far above the followers' own MaxBlockTransactionsSize (32768): one
+			// transaction with 950 distinct outputs (~35 KB)
+			big, err := bigTxn(pub, used)
+			if err != nil {
+				return err
+			}
+			txns = coin.Transactions{big}
 		}
 		if len(txns) == 0 {
 			return fmt.Errorf("generator could not build a transaction for block %d", k)
@@ -604,7 +670,8 @@ func run(args []string) error {
 		pre := r.Intn(nrandTop)
 		for k := 1; k <= pre; k++ {
 			if err := n.V.ExecuteSignedBlock(e.chain[k]); err != nil {
-				return err
+				pre = k - 1 // the node refuses a genuine block: it starts lower, the cycle below shows where it gets stuck
+				break
 			}
 		}
 		var heads []string
